@@ -1,13 +1,14 @@
 (* Store/Render.v — runs operation scripts on the engine model and renders the observables exactly
    as harness/src/store.rs does (trusted glue for the correspondence runs; no theorem depends on it). *)
-From BC Require Import Store.Engine.
+From BC Require Import Store.Engine Store.MergeFail.
 From Coq Require Import Ascii String.
 Open Scope string_scope.
 
 (* [FailAppend o kept]: the put or delete o, whose append failed after the timestamp had been read; [kept]: its whole
    record is still in the write buffer (the failing call was the final flush), otherwise what was buffered is lost or junk *)
 (* [FailFsync o]: the put or delete o under sync=always, whose fsync failed behind the completed append *)
-Inductive sop := Op (o : op) | Dump | Ls | Cat | DropHints | FailAppend (o : op) (kept : bool) | FailFsync (o : op).
+Inductive sop := Op (o : op) | Dump | Ls | Cat | DropHints | FailAppend (o : op) (kept : bool) | FailFsync (o : op)
+  | FailHint (ord1 : list bytes) (k : bytes) (retried : bool).   (* a merge pass stopped by the failing hint write for key k *)
 
 Definition render_data (es : list entry) : bytes := List.concat (List.map enc_entry es).
 Definition render_hints (hs : list hint) : bytes := List.concat (List.map enc_hint hs).
@@ -60,6 +61,11 @@ Fixpoint run_script (c : cfg) (s : st) (r : option entry) (ops : list sop) : lis
   | FailFsync o :: ops' =>
     match (match o with OSet k v => failed_fsync true s k (Some v) | ODel k => failed_fsync true s k None | _ => RFail EBadOracle end) with
     | ROk (s', _) => "err" :: run_script c s' None ops'
+    | _ => "panic" :: run_script c s r ops'
+    end
+  | FailHint ord1 k retried :: ops' =>
+    match merge_fail_hint false true retried c s ord1 k with
+    | ROk s' => "err" :: run_script c s' None ops'
     | _ => "panic" :: run_script c s r ops'
     end
   | Dump :: ops' => show_dump s :: run_script c s r ops'
